@@ -1133,19 +1133,33 @@ def echo_(s):
     return ["echo", lit(s)]
 
 
-def dirty_programs(rng, n):
-    """programs of the recorded defect classes (kept small and otherwise plain, so that the key names the class)"""
+def falloff_programs():
+    """closures whose body runs off its end yield null (/repo 1b0c649; the implementation yielded the value of the last
+    statement): last statement an assignment, an if without else, a loop, an echo, a static update; called as a value and
+    as a statement; an arrow function next to it keeps yielding its expression"""
     out = []
-    # closures that run off their end: the implementation yields the value of the last statement (arrow functions rely on
-    # that path).  Statement values are not modelled, so here ImplSem does NOT mirror the code: for programs of exactly
-    # this class a model/implementation difference is the known finding, not a broken tie (see main()).
-    for body in ([["expr", ["assign", "x", lit(5)]]],
-                 [["if", ["bin", "Gt", var("p"), lit(0)], [["return", lit(1)]], [], []], ["expr", ["assign", "y", lit(7)]]],
-                 [["expr", ["assign", "z", ["bin", "Add", var("p"), lit(1)]]], ["echo", lit("in;")], ["expr", ["postinc", "z"]]]):
-        clo = {"params": [["p", None]], "uses": [], "body": body, "arrow": False}
-        main = [["expr", ["assign", "f", ["closure", 0]]], ["expr", ["assign", "r", ["callv", var("f"), [lit(0)]]]],
-                ["if", ["same", var("r"), lit(None)], [["echo", lit("null")]], [], [tag("value:", var("r"))]]]
-        out.append(({"funcs": [], "closures": [clo], "main": main}, "closure:falloff-value"))
+    bodies = ([["expr", ["assign", "x", lit(5)]]],
+              [["if", ["bin", "Gt", var("p"), lit(0)], [["return", lit(1)]], [], []], ["expr", ["assign", "y", lit(7)]]],
+              [["expr", ["assign", "z", ["bin", "Add", var("p"), lit(1)]]], ["echo", lit("in;")], ["expr", ["postinc", "z"]]],
+              [["if", ["bin", "Gt", var("p"), lit(0)], [["expr", ["assign", "y", lit(3)]]], [], []]],
+              [["for", [["assign", "i", lit(0)]], ["bin", "Lt", var("i"), lit(2)], [["postinc", "i"]], [["expr", ["assign", "y", var("i")]]]]],
+              [["static", "s", 4], ["expr", ["assign", "s", ["bin", "Add", var("s"), lit(1)]]]],
+              [["expr", ["assign", "x", lit(5)]], ["echo", var("x")]])
+    for body in bodies:
+        for arg in (0, 1):
+            clo = {"params": [["p", None]], "uses": [], "body": body, "arrow": False}
+            arrow = {"params": [["p", None]], "uses": [], "body": [["return", ["bin", "Add", var("p"), lit(40)]]], "arrow": True}
+            main = [["expr", ["assign", "f", ["closure", 0]]], ["expr", ["assign", "g", ["closure", 1]]],
+                    ["expr", ["assign", "r", ["callv", var("f"), [lit(arg)]]]],
+                    ["if", ["same", var("r"), lit(None)], [["echo", lit("null")]], [], [tag("value:", var("r"))]],
+                    ["expr", ["callv", var("f"), [lit(arg)]]], tag(" arrow:", ["callv", var("g"), [lit(arg)]])]
+            out.append({"funcs": [], "closures": [clo, arrow], "main": main})
+    return out
+
+
+def dirty_programs(rng, n):
+    """programs of the former defect classes, all repaired in /repo: clean programs now (key None)"""
+    out = []
     for i in range(n):
         kind = ["case-nonlast", "empty-case-group", "default-nonlast", "static-main"][i % 4]
         sel = rng.randint(0, 3)
@@ -1836,6 +1850,8 @@ def main(ck):
             cases.append((pr, True, None, "random"))
             nrand -= 1
         ck.cov["random_programs_discarded_by_magnitude_filter"] = discarded
+        for pr in falloff_programs():
+            cases.append((pr, True, None, "closure"))
         for pr, key in dirty_programs(rng, 40 if ck.tier == "quick" else 200):
             # key None: the repaired classes (switch fall-through, static in the main script) — clean programs now
             cases.append((pr, key is None, key, "dirty" if key else "fallthrough"))
@@ -1884,9 +1900,6 @@ def main(ck):
         if 3 in cls or 4 in cls or 5 in cls or 6 in cls:
             ck.broken.append("generator:" + ",".join(str(x) for x in cls))
             ck.violation("generator:%s" % fam, replay)
-            continue
-        if dkey == "closure:falloff-value" and set(cls) <= {1, 2, 7}:
-            ck.violation(dkey, replay)       # documented modelling gap = the known finding (see dirty_programs)
             continue
         if 1 in cls:
             # the model no longer describes the code
